@@ -55,7 +55,13 @@ type numericSpec struct {
 
 func genNumericScenario(c *Ctx, rt *rapid.T, sp *numericSpec) *Scenario {
 	g := G{rt}
-	w := GenWorld(g, sp.gen)
+	gen := sp.gen
+	if sp.prop == "C02" && g.Rare(1, 4, "hugesizes") {
+		// maxima next to their 32-bit capacity: declared sizes around 2^32, 2^33, 2^63
+		// (only the simulated peers can serve these; no real-git cross-run for such worlds)
+		gen.HugeSizes = true
+	}
+	w := GenWorld(g, gen)
 	if sp.prop == "C01" && g.Rare(1, 10, "manyrefs") {
 		// more roots than any batch or buffer between the reference listing
 		// and rev-list's stdin holds, each leading to a commit of its own
